@@ -76,7 +76,12 @@ def gen_null(rng):
 STR_PIECES = ["", "a", "abc", "'", "''", "o'x", "'lead", "trail'", "a'b'c", "%", "_", "\\",
               "\\'", "--", ";", "/*", "*/", "\n", "\t", "\x00", "é", "ß", "中文", "😀",
               "’", "ʼ", "＇", " ", "  pad  ", "null", "true", " eq ", " and ",
-              "(", ")", ",", "duration'P1D", "geography'", "1", "2020-01-01", '"', "`"]
+              "(", ")", ",", "duration'P1D", "geography'", "1", "2020-01-01", '"', "`",
+              # shapes a (mis-placed) decoding step would rewrite: entities, percent-encoding,
+              # plus-as-space, backslash and unicode escapes, template syntaxes
+              "&amp;", "&lt", "&gt;", "&#39;", "&apos;", "&quot;", "&cent", "&para", "&", "&copy;", "&#x41;",
+              "%41", "%20", "%25", "%", "+", "\\n", "\\u0041", "\\x41", "$(x)", "${x}", "{{x}}", "{0}",
+              "<b>", "=?", "\r", "\ufeff", "\u200b"]
 
 
 def gen_str(rng):
